@@ -53,6 +53,13 @@ def cases(tier, seed):
             yield dict(kind='mem', forecasts=chunk, obs_max=2, maggrid=mg)
     for chunk in space.chunks(fcs, 40):
         yield dict(kind='history', forecasts=chunk)
+    # MLL_magnitude_test(full_calculation=True): resampling the pooled RAW magnitudes - every index script for N_obs <= 2, J <= 2,
+    # with last-bin events just above the last edge and 3.3 bin widths above it (the last bin is open at the top)
+    for far in (False, True):
+        for chunk in space.chunks(fcs[::7] if tier == 'quick' else fcs, 2 if tier == 'quick' else 8):
+            yield dict(kind='full', forecasts=chunk, far=far)
+        if tier == 'thorough':
+            yield dict(kind='full', forecasts=fcs[1::6], far=far, maggrid=[4.03, 0.01])
     # structured LARGE forecasts and observations (size-dependent paths): many synthetic catalogs, many events
     for J in (10, 11, 12, 40, 101, 150):
         for pattern in (0, 1):
@@ -204,6 +211,7 @@ class Ref:
 
 
 # ----------------------------------------------------------------------------- real objects
+_FAR = [False]         # True: events of the LAST magnitude bin (open at the top) lie 3.3 bin widths above its edge
 _MAG = [None]          # None: unit-wide magnitude bins from 5.0; else (first edge, width) of the current case
 
 
@@ -224,7 +232,8 @@ def events(types, origins, mags, base=0):
     evs = []
     for i, t in enumerate(types):
         c, k = t // NM, t % NM
-        evs.append((f'e{base + i}', 1262304000000 + 1000 * (base + i), origins[c][1] + 0.05, origins[c][0] + 0.05, 10.0, mags[k] + _half()))
+        far = 6.6 * _half() if (_FAR[0] and k == NM - 1) else 0.0
+        evs.append((f'e{base + i}', 1262304000000 + 1000 * (base + i), origins[c][1] + 0.05, origins[c][0] + 0.05, 10.0, mags[k] + _half() + far))
     return evs
 
 
@@ -381,12 +390,59 @@ def run_resample(forecast, obs_types, reg, origins, mags, failures, hsh):
     return evals
 
 
+def run_full(forecast, obs_types, reg, origins, mags, failures, hsh, only=None):
+    """MLL_magnitude_test(full_calculation=True) under a scripted numpy.random.choice: the documented resampling draws N_obs
+    magnitudes from the pooled synthetic events; EVERY index script is run and the result compared with the reference."""
+    from csep.core import catalog_evaluations as ce
+    ref = Ref(forecast)
+    J, n = len(forecast), len(obs_types)
+    pooled = [t % NM for c in forecast for t in c]
+    nu = len(pooled)
+    cls = classify(forecast, obs_types, ref) + (',last-bin-events-far-above-edge' if _FAR[0] else '')
+    evals = 0
+    if nu == 0 or n == 0 or nu ** (J * n) > 700:
+        return 0
+    for s in ([tuple(only)] if only is not None else itertools.product(range(nu), repeat=J * n)):
+        resamples = [[pooled[i] for i in s[j * n:(j + 1) * n]] for j in range(J)]
+        fc = mem_forecast(forecast, reg, origins, mags)
+        obs = fixtures.catalog(events(obs_types, origins, mags, 500), region=reg, name='obs')
+        site = 'catalog_evaluations.MLL_magnitude_test[full_calculation]'
+        rep = dict(kind='full1', forecast=forecast, obs=list(obs_types), script=list(s), far=_FAR[0], maggrid=(list(_MAG[0]) if _MAG[0] else None))
+        sc = env.Script(choices=list(s))
+        try:
+            with env.scripted_random(sc):
+                res = ce.MLL_magnitude_test(fc, obs, seed=None, full_calculation=True)
+        except env.Horizon:
+            failures.append(Fail(f'{site}|draws-more-than-N_obs-per-catalog|{cls}', f'forecast={forecast} obs={obs_types}', rep))
+            continue
+        except Exception as e:
+            failures.append(Fail(f'{site}|{type(e).__name__}|{cls}', f'{type(e).__name__}: {e} forecast={forecast} obs={obs_types}', rep))
+            continue
+        evals += 1
+        calls = [l for l in sc.log if l[0] == 'choice']
+        want_pool = sorted(e[5] for c in forecast for e in events(c, origins, mags))
+        okp = len(calls) == J and all(c[1][2] in (n, (n,)) and c[1][1] is None and sorted(c[1][0]) == want_pool for c in calls)
+        if not okp:
+            failures.append(Fail(f'{site}|resampling-not-N_obs-draws-from-pooled-magnitudes|{cls}',
+                                 f'choice calls {[(c[1][0], c[1][1], c[1][2]) for c in calls]} expected {J} calls of size {n} from {want_pool}', rep))
+            continue
+        # the library may pool the catalogs in any order: translate the script through the pool it actually used
+        lib_pool = calls[0][1][0]
+        edges = list(mags)
+        binof = lambda m: max(k for k in range(NM) if m >= edges[k] - 1e-9)
+        resamples = [[binof(lib_pool[i]) for i in s[j * n:(j + 1) * n]] for j in range(J)]
+        compare(site, res, ref.mll(obs_types, resamples), cls, rep, failures, hsh)
+    return evals
+
+
 def run_case(case):
     _MAG[0] = tuple(case['maggrid']) if case.get('maggrid') else None
+    _FAR[0] = bool(case.get('far'))
     try:
         return _run_case(case)
     finally:
         _MAG[0] = None
+        _FAR[0] = False
 
 
 def _run_case(case):
@@ -552,6 +608,16 @@ def _run_case(case):
     elif k == 'subthreshold':
         fc = mem_forecast(case['forecast'], reg, origins, mags)
         evals = run_subthreshold(fc, case['forecast'], case['obs'], reg, origins, mags, failures, hsh)
+        states = 1
+    elif k == 'full':
+        for forecast in case['forecasts']:
+            for obs_types in ([0], [1], [0, 1], [5, 5], [3, 1]):
+                e = run_full(forecast, obs_types, reg, origins, mags, failures, hsh)
+                evals += e
+                states += 1 if e else 0
+                nontriv += 1 if e else 0
+    elif k == 'full1':
+        evals = run_full(case['forecast'], case['obs'], reg, origins, mags, failures, hsh, only=case['script'])
         states = 1
     elif k == 'resample1':
         sel = tuple(case['script'])
